@@ -5,6 +5,7 @@ export GOFLAGS=-mod=mod GOPROXY=off GOSUMDB=off GOTOOLCHAIN=local
 S=${1:-/var/tmp/sg}
 rm -rf $S && mkdir -p $S/cases && rsync -a --exclude .git ${SRC:-/repo}/ $S/repo/ && rsync -a /verif/simrt/ $S/simrt/ && rsync -a /verif/harness/ $S/harness/
 (cd /verif/simgen && go1.26.8 build -o /verif/bin/simgen .)
-(cd $S/repo && PATH=/opt/veriftools/go1.26.8/bin:$PATH /verif/bin/simgen -root $S/repo -simrt ../simrt -report $S/report.json . util html html/core q)
+python3 /verif/lib/mkcmdsim.py $S/repo
+(cd $S/repo && PATH=/opt/veriftools/go1.26.8/bin:$PATH /verif/bin/simgen -root $S/repo -simrt ../simrt -report $S/report.json . util html html/core q cmdsim)
 cp $S/repo/go.sum $S/harness/go.sum
 (cd $S/harness && go1.26.8 test -c -race -trimpath -o $S/harness.test .)
